@@ -333,7 +333,7 @@ def gen_userpool(rng, nops, hist):
         term = [i for i, t in enumerate(s.th) if t["st"] == 3]
         nonempty = [p for p in range(NPOOLS) if s.q[p]]
         alive = [i for i, t in enumerate(s.th) if t["st"] != 0]
-        p = rng.choice([0, 1, 2, 3, 4, 5, 5, 5, 6, 6, 6])
+        p = rng.choice([0, 1, 2, 3, 4, 4, 4, 5, 5, 5, 6, 6, 6])
         if r < 12 and len(alive) < 24 and live_units() < 40 and len(s.th) < 500:
             k = rng.choice(["ult", "ult", "task"])
             emit("create %s %d" % (k, p), "create_" + ("user" if is_user(p) else "builtin"))
@@ -342,6 +342,22 @@ def gen_userpool(rng, nops, hist):
             else:
                 s.th.append(dict(st=1, kind=1 if k == "task" else 0, pool=p, pending=None))
                 s.q[p].append(len(s.th) - 1)
+        elif r < 32 and rng.chance(1, 4) and any(s.q[x] for x in (0, 1, 4)):
+            # ABT_pool_pop_threads: built-in pop_many / the adapter over the legacy definition; buffers shorter than,
+            # equal to and longer than the pool's content
+            pp = rng.choice([x for x in (0, 1, 4, 4, 4) if s.q[x]])
+            if len(s.q[4]) >= 2 and rng.chance(1, 2):
+                pp = 4
+            n_in = len(s.q[pp])
+            m = rng.choice([1, 2, 2, 3, n_in, n_in + 1, 5])
+            if n_in >= 2 and rng.chance(1, 2):
+                m = 1 + rng.below(n_in - 1)          # a buffer shorter than the content
+            m = max(1, min(8, m))
+            emit("popn %d %d" % (pp, m), "popn_%s_%s" % ("legacy" if pp == 4 else "builtin",
+                                                        "short" if m < len(s.q[pp]) else "exact" if m == len(s.q[pp]) else "long"))
+            for _k in range(min(m, len(s.q[pp]))):
+                t = s.q[pp].pop(0)
+                s.th[t]["st"] = 2
         elif r < 32 and (nonempty or rng.chance(1, 6)):
             pp = rng.choice(nonempty) if nonempty and not rng.chance(1, 10) else p
             i = rng.below(64)
@@ -350,6 +366,20 @@ def gen_userpool(rng, nops, hist):
                 idx = i % len(s.q[pp]) if is_user(pp) else 0
                 t = s.q[pp].pop(idx)
                 s.th[t]["st"] = 2
+        elif r < 52 and hand and rng.chance(1, 5):
+            # ABT_pool_push_threads into a built-in pool: units of user-defined pools are released on the way
+            pb = rng.choice([0, 1])
+            k = min(len(hand), 1 + rng.below(3))
+            ts = []
+            pool_h = list(hand)
+            for _k in range(k):
+                ts.append(pool_h.pop(rng.below(len(pool_h))))
+            emit("pushn %d %s" % (pb, " ".join(str(t) for t in ts)),
+                 "pushn_from_%s" % ("user" if any(is_user(s.th[t]["pool"]) for t in ts) else "builtin"))
+            for t in ts:
+                s.assoc(t, pb)
+                s.q[pb].append(t)
+                s.th[t]["st"] = 1
         elif r < 52 and hand:
             t = rng.choice(hand)
             op = rng.choice(["push", "push", "pushu", "setpool"])
@@ -482,6 +512,17 @@ def oracle_userpool(lines, out):
                 if e[0] == "pop" and e[2] != "none" and live.get((e[1], e[2])) != head[2]:
                     return "line %d `%s`: pool handed out %s (work unit %s) but the runtime returned %s" % (
                         i, l, e[2], live.get((e[1], e[2])), head[2])
+        elif w[0] == "popn" and head[1] == "0":
+            pops = [ev.split() for ev in parts[1:] if ev.split()[0] == "pop" and ev.split()[2] != "none"]
+            if w[1] == "4" and len(pops) != int(head[2]):
+                return ("line %d `%s`: the pool handed out %d unit(s) to ABT_pool_pop_threads, which returned %s work unit(s): "
+                        "a unit left its pool and reached nobody" % (i, l, len(pops), head[2]))
+            if len(head) != 3 + int(head[2]):
+                return "line %d `%s`: %s work units reported, %d returned" % (i, l, head[2], len(head) - 3)
+            for e, tn in zip(pops, head[3:]):
+                if live.get((e[1], e[2])) != tn:
+                    return "line %d `%s`: pool handed out %s (work unit %s) but the runtime returned %s" % (
+                        i, l, e[2], live.get((e[1], e[2])), tn)
         elif w[0] == "xlat":
             if head[2] == "builtin":
                 if head[3] != "t" + w[1]:
